@@ -448,9 +448,69 @@ func (w *World) checkRevertDiffs(n *Node, e *blockEntry, ru consensus.RevertUpda
 		if n.store.digest(false) == e.preStoreNoProof {
 			kind = "proofs only"
 		}
-		w.violate("C06", "store-after-revert", fmt.Sprintf("node %d: store after reverting block %s (height %d) differs from the store before it was applied (%s)", n.idx, short(e.id), e.height, kind))
+		w.violate("C06", "store-after-revert", fmt.Sprintf("node %d: store after reverting block %s (height %d) differs from the store before it was applied (%s)%s", n.idx, short(e.id), e.height, kind, revertCulprit(ru)))
 	}
 	if len(got[0])+len(got[1])+len(got[2])+len(got[3]) > 0 {
 		w.stats.Inc("reach.revert-nonempty")
 	}
+}
+
+
+// revertProbe reverts the block just applied on a copy of the store: every
+// block is a revert test, not only those a reorg happens to undo.
+func (w *World) revertProbe(n *Node, e *blockEntry) {
+	parent := n.blocks[e.parent]
+	var ru consensus.RevertUpdate
+	if p := guard(func() { ru = consensus.RevertBlock(parent.state, e.b, e.supp) }); p != "" {
+		w.violate("C10", "revert-panic", fmt.Sprintf("RevertBlock panicked on applied block %s at height %d: %s", short(e.id), e.height, p))
+		return
+	}
+	w.stats.Inc("probe.revert-probe")
+	got := noProofDiffs(ru.SiacoinElementDiffs(), ru.SiafundElementDiffs(), ru.FileContractElementDiffs(), ru.V2FileContractElementDiffs())
+	names := []string{"siacoin", "siafund", "contract", "v2contract"}
+	for k := 0; k < 4; k++ {
+		if fmt.Sprint(reversed(e.applyDiffs[k])) != fmt.Sprint(got[k]) {
+			w.violate("C06", "revert-diffs", fmt.Sprintf("node %d, revert probe of block %s (height %d): %s diffs of RevertBlock are not the reverse of ApplyBlock's", n.idx, short(e.id), e.height, names[k]))
+			return
+		}
+	}
+	c := n.store.clone()
+	if p := guard(func() { c.revert(ru) }); p != "" {
+		w.violate("C06", "revert-update-panic", fmt.Sprintf("applying the RevertUpdate of block %s (height %d) to the store panicked: %s", short(e.id), e.height, p))
+		return
+	}
+	if d := c.digest(true); d != e.preStore {
+		kind := "content"
+		if c.digest(false) == e.preStoreNoProof {
+			kind = "proofs only"
+		}
+		w.violate("C06", "store-after-revert", fmt.Sprintf("node %d: store after reverting block %s (height %d) on a copy differs from the store before it was applied (%s)%s", n.idx, short(e.id), e.height, kind, revertCulprit(ru)))
+		return
+	}
+	if l := w.ledgers[parent.id]; l != nil {
+		w.checkStore(fmt.Sprintf("node %d revert probe of block %s (height %d): ", n.idx, short(e.id), e.height), c, parent.state, l, "revert")
+	}
+	if len(got[0])+len(got[1])+len(got[2])+len(got[3]) > 0 {
+		w.stats.Inc("reach.revert-nonempty")
+	}
+}
+
+
+// revertCulprit names the kind of block content behind a revert mismatch.
+func revertCulprit(ru consensus.RevertUpdate) string {
+	out := ""
+	for _, d := range ru.FileContractElementDiffs() {
+		switch {
+		case d.Revision != nil && d.Resolved && !d.Created:
+			out += fmt.Sprintf("; v1 contract %v was revised and resolved in this block", d.FileContractElement.ID)
+		case d.Revision != nil && !d.Created:
+			out += fmt.Sprintf("; v1 contract %v was revised in this block", d.FileContractElement.ID)
+		}
+	}
+	for _, d := range ru.V2FileContractElementDiffs() {
+		if d.Revision != nil && d.Resolution != nil {
+			out += fmt.Sprintf("; v2 contract %v was revised and resolved in this block", d.V2FileContractElement.ID)
+		}
+	}
+	return out
 }
